@@ -141,6 +141,69 @@ example :
     (fin.locals 0).ret = some none ∧ (fin.locals 1).ret = some (some 500) ∧ (fin.locals 2).ret = some none := by
   decide
 
+/-! ### `event` is a variable of the invocation, also when the declaring scope has one of that name -/
+
+/-- **Generated side obligation**: inside the action closure the fresh scope receives `event`
+    (by `SetValue`) while it has no parent — the link to the declaring scope comes after the
+    store — and the call frame of `function.Run` receives `this`, `super` and the parameters the
+    same way. (`SetValue` after the link would resolve the name through the parent chain and
+    overwrite a variable of that name in the declaring scope.) -/
+theorem scope_setup_local :
+    setupKeepsLocal Ecal.Gen.C11.sinkScopeSetup ["event"] = true ∧
+    setupKeepsLocal Ecal.Gen.C11.funcRunScopeSetup ["this", "super", "*"] = true := by decide
+
+/-- **event_is_local.** With a set-up that stores `event` before the scope gets its parent
+    (`h`, discharged for the source under test by `scope_setup_local`): for every number of
+    overlapping invocations, every interleaving and every declaring scope `g` — also one that
+    defines a variable named `event` — every completed invocation read its own event both times,
+    no invocation ever reads another one's event, and the declaring scope is untouched. -/
+theorem event_is_local (setup : List (String × String)) (h : setupKeepsLocal setup ["event"] = true)
+    (events : Nat → Nat) (g : String → Option Nat) (sched : List Nat) :
+    let fin := run (scopeSys (!setupKeepsLocal setup ["event"])) ⟨g, fun t => { event := events t }⟩ sched
+    fin.shared = g ∧
+    (∀ t, sched.count t ≥ 3 →
+        (fin.locals t).read1 = some (events t) ∧ (fin.locals t).read2 = some (events t)) ∧
+    (∀ t, ((fin.locals t).read1 = none ∨ (fin.locals t).read1 = some (events t)) ∧
+          ((fin.locals t).read2 = none ∨ (fin.locals t).read2 = some (events t))) := by
+  rw [h]
+  intro fin
+  obtain ⟨h1, h2⟩ := Ecal.Conc.isolation (scopeSys false) scopeSys_local_readonly
+    ⟨g, fun t => { event := events t }⟩ sched
+  refine ⟨h1, ?_, ?_⟩
+  · intro t ht
+    obtain ⟨k, hk⟩ : ∃ k, sched.count t = k + 3 := ⟨sched.count t - 3, by omega⟩
+    have := h2 t
+    simp only [hk] at this
+    rw [scope_alone_fresh] at this
+    simp [fin, this]
+  · intro t
+    have := h2 t
+    have hw := scope_alone_never_wrong t (sched.count t) (events t) g
+    simp only at hw
+    simp only [fin, Bool.not_true, this]
+    exact hw
+
+/-- `event_is_local` for the set-up extracted from the source under test -/
+theorem event_is_local_extracted (events : Nat → Nat) (g : String → Option Nat) (sched : List Nat) (t : Nat)
+    (ht : sched.count t ≥ 3) :
+    ((run (scopeSys (!setupKeepsLocal Ecal.Gen.C11.sinkScopeSetup ["event"]))
+        ⟨g, fun t => { event := events t }⟩ sched).locals t).read2 = some (events t) :=
+  ((event_is_local _ scope_setup_local.1 events g sched).2.1 t ht).2
+
+/-- **parent_first_shares_event** (negative witness). With the parent attached first
+    (`NewScopeWithParent` … `SetValue("event")`) and a declaring scope that defines `event`
+    (here: 99), invocation 0 reads its own event, invocation 1 stores its event, invocation 0
+    reads again and sees invocation 1's event; the declaring scope's variable is clobbered.
+    The set-up check rejects that order. -/
+theorem parent_first_shares_event :
+    let g : String → Option Nat := fun x => if x = eventCell then some 99 else none
+    let fin := run (scopeSys true) ⟨g, fun t => { event := t }⟩ [0, 0, 1, 0]
+    (fin.locals 0).read1 = some 0 ∧ (fin.locals 0).read2 = some 1 ∧ fin.shared eventCell = some 1 ∧
+    setupKeepsLocal [("NewScopeWithParent", ""), ("SetValue", "event"), ("Eval", "")] ["event"] = false ∧
+    setupKeepsLocal [("NewScope", ""), ("SetParentOfScope", ""), ("SetValue", "event"), ("Eval", "")] ["event"] = false ∧
+    setupKeepsLocal [("NewScopeWithParent", ""), ("SetLocalValue", "event"), ("Eval", "")] ["event"] = true := by
+  decide
+
 /-! ### Negative witness: the closure before the repair assigned the captured `err` -/
 
 /-- invocation 0 fails with error 7, invocation 1 succeeds -/
